@@ -113,6 +113,7 @@ def cases(shard, rnd):
 
 
 _argseen = {}
+_RETAINED = common.Retained()
 
 
 def _chain(depth, via):
@@ -370,6 +371,13 @@ def run_case(case, rec):
             rec.count('encode_change_encode_ok')
             break
     rec.count('roundtrips_ok')
+    if rec.counters['roundtrips_ok'] % 5 == 0:
+        # the decoded frame and the caller's own object stay with their
+        # owners: nothing done later may change what they hold
+        for o_, lab in ((g, 'decoded'), (obj, 'constructed')):
+            _RETAINED.add(o_, lambda o, sp=spec: canon.text(
+                boundary.method_values(o, sp)), '%s %s' % (lab, spec.name),
+                rec, 'earlier-frame-object-changed')
     rec.count('why:' + case['why'].split(':')[0])
     for n, t, _ in spec.args:
         key = spec.name + '.' + n
